@@ -167,6 +167,12 @@ func ListenTo(inPort drivers.In, recv func(msg Message, timestampms int32), opts
 			}
 		}
 
+		// nothing to deliver: an unpaired F7 (it only cancels running status) or
+		// an undefined system common status
+		if msg == nil {
+			return
+		}
+
 		recv(msg, millisec)
 	}
 
